@@ -136,11 +136,12 @@ pub fn miri_phase(name: &str, root: &PathBuf, runs: Vec<MiriRun>, jobs: usize) -
         let r = &runs[*i];
         ph.evaluations += 1;
         ph.runs += 1;
-        *per_scenario.entry(r.args.join(" ")).or_insert(0) += 1;
+        let short: Vec<String> = r.args.iter().map(|a| if a.len() > 24 { format!("{}..({} chars)", &a[..12], a.len()) } else { a.clone() }).collect();
+        *per_scenario.entry(short.join(" ")).or_insert(0) += 1;
         *ph.faults.entry(format!("miri_schedule_preemption_rate_{}", r.preemption_rate)).or_insert(0) += 1;
         match o {
             MiriOutcome::Ok { sig } => {
-                sigs.insert(format!("{}|{}", r.args.join(" "), sig));
+                sigs.insert(format!("{}|{}", short.join(" "), sig));
             },
             MiriOutcome::HarnessError { report } => {
                 ph.error = Some(format!("miri run {} ({:?}, seed {}): {}", i, r.args, r.seed, report));
